@@ -73,7 +73,16 @@ func exprList(r *Rng, n int) string {
 
 func genC14Stmt(r *Rng, reading bool) c14Stmt {
 	for {
-		switch k := r.Intn(30); {
+		switch k := r.Intn(33); {
+		case k == 30:
+			// reading statements that fail in one of their clauses: what they had set up (scopes, inline tables, aliases) must be gone afterwards
+			return c14Stmt{Src: r.PickS("SELECT id FROM a x ORDER BY id LIMIT 1 OFFSET 'abc';", "SELECT id FROM a LIMIT 'x';", "WITH w AS (SELECT id FROM a) SELECT w.id FROM w ORDER BY id OFFSET @u + 'q';",
+				"SELECT id FROM a ORDER BY nosuch;", "WITH w AS (SELECT nosuch FROM a) SELECT * FROM w;", "SELECT id FROM a GROUP BY g HAVING nosuch > 1;", "SELECT a.id FROM a JOIN b ON a.id = b.nosuch;"), Repeat: 2, Reads: true}
+		case k == 31:
+			// nested queries whose scopes come from the pool of query scopes
+			return c14Stmt{Src: "SELECT id FROM a WHERE id IN (SELECT id FROM a WHERE id > 1) ORDER BY id; WITH a2 AS (SELECT id, g FROM a WHERE id > 1) SELECT b.id, (SELECT COUNT(*) FROM (SELECT id FROM a2) s) AS n FROM b ORDER BY b.id;", Repeat: 2, Reads: true}
+		case k == 32:
+			return c14Stmt{Src: "SELECT x.id, (SELECT MAX(y.v) FROM a y WHERE y.g = x.g) FROM a x WHERE EXISTS (SELECT 1 FROM b z WHERE z.id = x.id) ORDER BY x.id LIMIT 5;", Repeat: 2, Reads: true}
 		case k == 28:
 			return c14Stmt{Src: "SELECT COUNT(*) FROM a; SHOW TABLES; SHOW VIEWS; SHOW FUNCTIONS; SHOW FIELDS FROM a;", Repeat: 2, Reads: true}
 		case k == 29:
